@@ -1,2 +1,147 @@
-(* C12 -- statements only. *)
-From UP Require Import Base.Chars Model.Uri.
+(* C12 -- owned URIs are independent of their source; borrowed text is never altered.  Statements only.
+
+   The theorems are about the memory-tier model (Model/Mem.v, Model/ParseM.v, Model/OpsM.v), which mirrors
+   /repo/src allocation by allocation (gen/c14.py compares the allocation traces with the real code;
+   gen/c12.py observes provenance at run time: it overwrites and frees the source buffers and re-reads).
+   All of them are for the fault plan NoFault (failure behaviour: C13/C14) and for every input.
+
+   Vocabulary (definitions in Proofs/OwnershipProofs.v, Part 0 and Part 6):
+     erase m            the value-level URI of the memory-tier object m (Model/Mem.v)
+     nofault s          the ledger s has the plan NoFault
+     text_owned t       the text t is absent, empty, or a heap block of its own (t_blk t = Some _)
+     all_owned m        every present non-empty text of m -- scheme, userInfo, hostText (for an IPvFuture
+                        host: the ipFuture range it shares), portText, every segment, query, fragment --
+                        lives in its own heap block
+     depends_on_input m negb (all_owned m): some present non-empty text still points into the caller's string
+     text_blocks m      the heap blocks holding the present non-empty texts of m, in field order (list
+                        nodes and address blocks are not text and not listed); hostText/ipFuture of an
+                        IPvFuture host is one range and is recorded once (in m_ipFuture)
+     mwf m              well-formed object: hostText = ipFuture when ipFuture is set; the text blocks are
+                        pairwise distinct; an owned object owns all its text; a borrowed object owns none.
+                        (Node list and segment list have the same length by construction of [muri].)
+     fresh_blocks s s' m'  the text blocks of m' are pairwise distinct, were all handed out between the
+                        ledger states s and s' (ms_next s <= b < ms_next s'), and -- when every live block
+                        of s has an id below ms_next s ([ledger_wf], true of ms_init and kept by alloc and
+                        free) -- none of them was live before the call.
+   "Overwriting or releasing the original string changes nothing" is stated as: after the operation
+   depends_on_input = false and the blocks are fresh_blocks, i.e. no component refers to caller memory
+   or to a block that existed before; the values (erase, to_text) are functions of the object alone.
+
+   Two clauses of the property are true by construction of the model and are therefore NOT theorems here:
+   "no operation ever writes into caller-supplied input text" and "read-only arguments are left
+   bit-for-bit unchanged".  In the model inputs are values passed by value and are never outputs; only
+   the run-time check (gen/c12.py: in=1 / ro= fields, ASan builds) speaks about the C code.
+
+   Not proved: that the text blocks of the result are still live in the final ledger (the model never
+   frees a block it has just recorded, but the theorem is not stated); pairwise distinctness including
+   the node and address blocks. *)
+From Coq Require Import List NArith Bool.
+From UP Require Import Base.Chars Model.Uri Model.Parse Model.Normalize Model.Resolve Model.Shorten Model.Recompose
+  Model.Mem Model.ParseM Model.OpsM Proofs.OwnershipProofs.
+Import ListNotations.
+Local Open Scope N_scope.
+
+(* ---- erasure: the two tiers agree --------------------------------------------------------------- *)
+(* the memory-tier parser succeeds exactly when the pure parser does, with the same object, the same
+   error position, never the out-of-memory code, and its results are well-formed borrowed objects *)
+Theorem C12_parse_erasure : forall t s, nofault s ->
+  (forall m, fst (parse_m t s) = MOk m -> parse t = POk (erase m) /\ mwf m /\ m_owner m = false)
+  /\ (forall u, parse t = POk u -> exists m, fst (parse_m t s) = MOk m /\ erase m = u)
+  /\ (forall pos, fst (parse_m t s) = MSyntax pos <-> parse t = PSyntax pos)
+  /\ fst (parse_m t s) <> MMalloc
+  /\ nofault (snd (parse_m t s)).
+Proof. exact parse_m_erasure. Qed.
+Print Assumptions C12_parse_erasure.
+
+(* ---- make-owner ----------------------------------------------------------------------------------- *)
+(* on a borrowed object: success; the value differs in the owner flag only (make_owner = set_owner true),
+   so the recomposed text is the same; every text is now a heap block of its own, freshly handed out and
+   distinct from the others; well-formedness is kept *)
+Theorem C12_make_owner : forall csize m s, nofault s -> mwf m -> m_owner m = false ->
+  exists m' s', make_owner_m csize m s = (URI_SUCCESS, m', s')
+    /\ erase m' = make_owner (erase m) /\ to_text (erase m') = to_text (erase m)
+    /\ m_owner m' = true /\ all_owned m' = true /\ depends_on_input m' = false
+    /\ mwf m' /\ fresh_blocks s s' m' /\ nofault s'.
+Proof. exact C12_make_owner_stmt. Qed.
+Print Assumptions C12_make_owner.
+
+(* on an owned object nothing happens, under any fault plan *)
+Theorem C12_make_owner_owned : forall csize m s, m_owner m = true -> make_owner_m csize m s = (URI_SUCCESS, m, s).
+Proof. exact make_owner_m_owned. Qed.
+Print Assumptions C12_make_owner_owned.
+
+(* ---- normalisation -------------------------------------------------------------------------------- *)
+(* any non-zero mask, borrowed object: the value is the pure normalisation, and the result owns all its
+   text in fresh, pairwise distinct blocks *)
+Theorem C12_normalize_borrowed : forall csize mask m s, nofault s -> mwf m -> m_owner m = false -> mask <> 0 ->
+  exists m' s', normalize_m csize mask m s = (URI_SUCCESS, m', s')
+    /\ erase m' = normalize mask (erase m)
+    /\ m_owner m' = true /\ all_owned m' = true /\ depends_on_input m' = false
+    /\ mwf m' /\ fresh_blocks s s' m' /\ nofault s'.
+Proof. exact C12_normalize_borrowed_stmt. Qed.
+Print Assumptions C12_normalize_borrowed.
+
+(* any non-zero mask, owned object: normalised in place; it still owns all its text and holds no block
+   it did not hold before *)
+Theorem C12_normalize_owned : forall csize mask m s, nofault s -> mwf m -> m_owner m = true -> mask <> 0 ->
+  exists m' s', normalize_m csize mask m s = (URI_SUCCESS, m', s')
+    /\ erase m' = normalize mask (erase m)
+    /\ m_owner m' = true /\ all_owned m' = true /\ depends_on_input m' = false
+    /\ mwf m' /\ incl (text_blocks m') (text_blocks m) /\ nofault s'.
+Proof. exact C12_normalize_owned_stmt. Qed.
+Print Assumptions C12_normalize_owned.
+
+(* mask 0: nothing changes, not even ownership, under any fault plan *)
+Theorem C12_normalize_zero : forall csize m s,
+  normalize_m csize 0 m s = (URI_SUCCESS, m, s) /\ normalize 0 (erase m) = erase m.
+Proof. exact C12_normalize_zero_stmt. Qed.
+Print Assumptions C12_normalize_zero.
+
+(* ---- resolution and reference creation: the results borrow, the values are the pure ones ---------- *)
+Theorem C12_add_base_erasure : forall compat rel base s, nofault s ->
+  exists rc d s', add_base_m compat rel base s = (rc, d, s')
+    /\ (rc, erase d) = add_base compat (erase rel) (erase base)
+    /\ m_owner d = false /\ text_blocks d = []
+    /\ (mwf rel -> mwf base -> mwf d) /\ nofault s'.
+Proof. exact C12_add_base_stmt. Qed.
+Print Assumptions C12_add_base_erasure.
+
+Theorem C12_remove_base_erasure : forall domain_root src base s, nofault s ->
+  exists rc d s', remove_base_m domain_root src base s = (rc, d, s')
+    /\ (rc, erase d) = remove_base domain_root (erase src) (erase base)
+    /\ m_owner d = false /\ text_blocks d = []
+    /\ (mwf src -> mwf base -> mwf d) /\ nofault s'.
+Proof. exact C12_remove_base_stmt. Qed.
+Print Assumptions C12_remove_base_erasure.
+
+(* the ledger hypothesis of fresh_blocks holds initially and is kept by the two ledger operations *)
+Theorem C12_ledger_wf : forall p c sz b s,
+  ledger_wf (ms_init p)
+  /\ (ledger_wf s -> ledger_wf (snd (alloc c sz s)))
+  /\ (ledger_wf s -> ledger_wf (free_blk b s)).
+Proof. exact C12_ledger_wf_stmt. Qed.
+Print Assumptions C12_ledger_wf.
+
+(* the hypotheses are satisfiable and the conclusions are not trivial: "s://u@[vF.x]:8/a//b?q#f" *)
+Example C12_nonvacuous :
+  let t := [115; 58; 47; 47; 117; 64; 91; 118; 70; 46; 120; 93; 58; 56; 47; 97; 47; 47; 98; 63; 113; 35; 102] in
+  match parse_m t (ms_init NoFault) with
+  | (MOk m, s1) =>
+    depends_on_input m = true /\ text_blocks m = [] /\ ms_next s1 = 3%nat
+    /\ (let '(rc, m', s2) := make_owner_m 4 m s1 in
+        rc = URI_SUCCESS /\ depends_on_input m' = false /\ text_blocks m' = [3; 4; 7; 10; 8; 9; 5; 6]%nat)
+    /\ (let '(rc, m', s2) := normalize_m 4 63 m s1 in
+        rc = URI_SUCCESS /\ depends_on_input m' = false /\ text_blocks m' = [3; 5; 4; 10; 6; 7; 8; 9]%nat)
+  | _ => False
+  end.
+Proof. vm_compute. repeat split. Qed.
+
+(* the hypothesis "hostText = ipFuture when ipFuture is set" of mwf is needed for the erasure clause of
+   C12_make_owner: the engine (like the C code) re-derives hostText from the ipFuture range *)
+Example C12_host_range_needed :
+  let m := {| m_scheme := mt_none; m_userInfo := mt_none; m_hostText := mt_borrowed [121]; m_ip4 := None; m_ip6 := None;
+              m_ipFuture := mt_borrowed [120]; m_portText := mt_none; m_segs := []; m_query := mt_none;
+              m_fragment := mt_none; m_abs := false; m_owner := false |} in
+  let '(rc, m', _) := make_owner_m 1 m (ms_init NoFault) in
+  rc = URI_SUCCESS /\ hostText (erase m) = Some [121] /\ hostText (erase m') = Some [120].
+Proof. vm_compute. repeat split. Qed.
